@@ -7,6 +7,7 @@ use program_structure::report_code::ReportCode;
 use program_structure::report::{Report, ReportCollection};
 use program_structure::ir::*;
 use program_structure::ir::AccessType;
+use program_structure::ir::value_meta::ValueMeta;
 use program_structure::ir::variable_meta::VariableMeta;
 
 pub struct SignalAssignmentWarning {
@@ -134,12 +135,41 @@ struct Constraint {
     pub meta: Meta,
     pub lhe: Expression,
     pub rhe: Expression,
+    /// The signal (or component input) assigned by a constraint assignment `<==`.
+    pub target: Option<(VariableName, Vec<AccessType>)>,
 }
 
 impl Constraint {
-    fn new(meta: &Meta, lhe: &Expression, rhe: &Expression) -> Constraint {
-        Constraint { meta: meta.clone(), lhe: lhe.clone(), rhe: rhe.clone() }
+    fn new(
+        meta: &Meta,
+        lhe: &Expression,
+        rhe: &Expression,
+        target: Option<(&VariableName, &[AccessType])>,
+    ) -> Constraint {
+        Constraint {
+            meta: meta.clone(),
+            lhe: lhe.clone(),
+            rhe: rhe.clone(),
+            target: target.map(|(var, access)| (var.clone(), access.to_vec())),
+        }
     }
+}
+
+/// Returns true if the two accesses may refer to the same signal, or if one of
+/// them may refer to a part of the other (an array and one of its elements).
+/// Array indices are identified unless they are known to be different, since
+/// the same element may be accessed using different index expressions (cf.
+/// `MaybeEqual` in the unused output signal pass).
+fn may_alias(first: &[AccessType], second: &[AccessType]) -> bool {
+    use AccessType::*;
+    first.iter().zip(second.iter()).all(|accesses| match accesses {
+        (ComponentAccess(first), ComponentAccess(second)) => first == second,
+        (ArrayAccess(first), ArrayAccess(second)) => match (first.value(), second.value()) {
+            (Some(first), Some(second)) => first == second,
+            _ => true,
+        },
+        _ => false,
+    })
 }
 
 /// This structure tracks signal assignments and constraints in a single
@@ -168,10 +198,16 @@ impl SignalUse {
         self.assignments.insert(Assignment::new(meta, var, access, degree));
     }
 
-    /// Add a constraint `lhe === rhe`.
-    fn add_constraint(&mut self, lhe: &Expression, rhe: &Expression, meta: &Meta) {
+    /// Add a constraint `lhe === rhe`, or `target <== rhe`.
+    fn add_constraint(
+        &mut self,
+        lhe: &Expression,
+        rhe: &Expression,
+        meta: &Meta,
+        target: Option<(&VariableName, &[AccessType])>,
+    ) {
         trace!("adding constraint `{lhe:?} === {rhe:?}`");
-        self.constraints.insert(Constraint::new(meta, lhe, rhe));
+        self.constraints.insert(Constraint::new(meta, lhe, rhe, target));
     }
 
     /// Get all assignments.
@@ -179,7 +215,7 @@ impl SignalUse {
         &self.assignments
     }
 
-    /// Get the set of constraints that contain the given variable.
+    /// Get the set of constraints that mention the given signal.
     fn get_constraints(&self, signal: &VariableName, access: &Vec<AccessType>) -> Vec<&Constraint> {
         self.constraints
             .iter()
@@ -189,10 +225,14 @@ impl SignalUse {
                 let rhe = constraint.rhe.signals_read().iter();
                 let lhe_ports = constraint.lhe.components_read().iter();
                 let rhe_ports = constraint.rhe.components_read().iter();
-                lhe.chain(rhe)
-                    .chain(lhe_ports)
-                    .chain(rhe_ports)
-                    .any(|signal_use| signal_use.name() == signal && signal_use.access() == access)
+                let is_read = lhe.chain(rhe).chain(lhe_ports).chain(rhe_ports).any(|signal_use| {
+                    signal_use.name() == signal && may_alias(signal_use.access(), access)
+                });
+                let is_target = constraint
+                    .target
+                    .as_ref()
+                    .is_some_and(|(name, target)| name == signal && may_alias(target, access));
+                is_read || is_target
             })
             .collect()
     }
@@ -263,13 +303,13 @@ fn visit_statement(stmt: &Statement, signal_use: &mut SignalUse) {
                 // found.
                 AssignOp::AssignConstraintSignal => {
                     let lhe = Expression::Variable { meta: meta.clone(), name: var.clone() };
-                    signal_use.add_constraint(&lhe, rhe, meta)
+                    signal_use.add_constraint(&lhe, rhe, meta, Some((var, &access)))
                 }
                 AssignOp::AssignLocalOrComponent => {}
             }
         }
         ConstraintEquality { meta, lhe, rhe } => {
-            signal_use.add_constraint(lhe, rhe, meta);
+            signal_use.add_constraint(lhe, rhe, meta, None);
         }
         _ => {}
     }
